@@ -19,8 +19,6 @@ import (
 	"github.com/tochemey/goakt/v4/actor"
 	"github.com/tochemey/goakt/v4/discovery"
 	"github.com/tochemey/goakt/v4/internal/cluster"
-	"github.com/tochemey/goakt/v4/log"
-	"github.com/tochemey/goakt/v4/remote"
 	"github.com/tochemey/goakt/v4/verifharness/sched"
 	"github.com/tochemey/goakt/v4/verifharness/vtrace"
 )
@@ -69,23 +67,20 @@ type putRec struct {
 
 const cronRef = "verif-cron"
 
-func newCWorld(names []string) *cworld {
+func newCWorld(names []string) *cworld { return newCWorldCron(names, "0 0 0 1 1 ?") }
+
+func newCWorldCron(names []string, cron string) *cworld {
 	ctx := context.Background()
 	w := &cworld{st: newKVStore(), nodes: map[string]*cnode{}, order: names}
-	ports := freePorts(2 * len(names))
 	var dns []*discovery.Node
+	var systems []actor.ActorSystem
 	for i, n := range names {
-		dns = append(dns, &discovery.Node{Name: n, Host: "127.0.0.1", PeersPort: ports[2*i+1], RemotingPort: ports[2*i]})
+		sys, port := startSystem("c" + n)
+		systems = append(systems, sys)
+		dns = append(dns, &discovery.Node{Name: n, Host: "127.0.0.1", PeersPort: 30000 + i, RemotingPort: port})
 	}
 	for i, name := range names {
-		sys, err := actor.NewActorSystem("c"+name, actor.WithLogger(log.DiscardLogger),
-			actor.WithRemote(remote.NewConfig("127.0.0.1", ports[2*i])))
-		if err != nil {
-			fatal(err)
-		}
-		if err := sys.Start(ctx); err != nil {
-			fatal("start:", err)
-		}
+		sys := systems[i]
 		n := &cnode{name: name, sys: sys, msg: &cronMsg{Node: name}}
 		n.dm = &kvDMap{st: w.st, node: name}
 		n.dm.onPut = func(node, key string, nx bool, res int) {
@@ -109,7 +104,7 @@ func newCWorld(names []string) *cworld {
 			fatal("spawn sink:", err)
 		}
 		// the same cron schedule, same reference, on every node (it never fires by itself during the run)
-		if err := sys.ScheduleWithCron(ctx, n.msg, sink, "0 0 0 1 1 ?", actor.WithReference(cronRef)); err != nil {
+		if err := sys.ScheduleWithCron(ctx, n.msg, sink, cron, actor.WithReference(cronRef)); err != nil {
 			fatal("ScheduleWithCron:", err)
 		}
 		w.nodes[name] = n
@@ -338,4 +333,116 @@ func schedClaimMain(bfile, tfile string) {
 		w.stop()
 	}
 	fmt.Fprintf(os.Stdout, `{"behaviours":%d,"events":%d,"drifts":%d,"first_drift":%q}`+"\n", len(behaviours), n, drifts, firstDrift)
+}
+
+// schedLongStallMain reproduces, in real time, the one schedule Claim.tla excludes by its NoLongStall assumption: a
+// node that lags almost a full claim TTL behind passes the staleness check, stalls across the expiry of the first
+// node's claim, and then wins the same tick again.  The cron schedule fires every minute, so the claim TTL is its
+// floor of one minute; the schedules are paused so that quartz never fires them by itself.  Takes ~ one TTL.
+func schedLongStallMain(tfile string) {
+	ctx := context.Background()
+	tw, err := vtrace.Create(tfile)
+	if err != nil {
+		fatal(err)
+	}
+	w := newCWorldCron([]string{"n1", "n2"}, "0 * * * * *")
+	w.st.mu.Lock()
+	w.st.ttl = true
+	w.st.mu.Unlock()
+	for _, n := range w.nodes {
+		if err := n.sys.PauseSchedule(cronRef); err != nil {
+			fatal("pause:", err)
+		}
+	}
+	ttl := time.Duration(envInt("VERIF_CLAIM_TTL_MS", 60000)) * time.Millisecond
+	s := sched.New()
+	s.Watchdog = 2*ttl + 10*time.Second
+	for _, n := range w.nodes {
+		s.Control(n.cl)
+		s.Control(n.msg)
+	}
+	s.OnlyPoints("sched.job", "cluster.ClaimScheduleFire", "sched.tell")
+	tw.Raw(map[string]any{"op": "New", "id": 0, "nodes": w.order, "nticks": 1})
+	run := time.Now()
+	rt := run.UnixNano()
+	step := func(name string) sched.Pending {
+		p, err := s.Step(name)
+		if err != nil {
+			fatal("longstall step:", name, err)
+		}
+		return p
+	}
+	point := func(p sched.Pending) string {
+		if p.Done {
+			return "done"
+		}
+		return p.Point
+	}
+	fire := func(n string) {
+		node := w.nodes[n]
+		if _, err := s.Go(n+"-1", func() { _, _ = actor.VerifFireScheduled(ctx, node.sys, cronRef, rt) }); err != nil {
+			fatal("longstall fire:", err)
+		}
+		tw.Raw(map[string]any{"op": "Fire", "n": n, "t": 1})
+	}
+	check := func(n string) string {
+		r := "stale"
+		if point(step(n+"-1")) == "cluster.ClaimScheduleFire" {
+			r = "fresh"
+		}
+		tw.Raw(map[string]any{"op": "Check", "n": n, "t": 1, "r": r})
+		return r
+	}
+	claim := func(n string) string {
+		w.takePuts()
+		p := step(n + "-1")
+		obs, key := "err", ""
+		for _, pr := range w.takePuts() {
+			key = pr.key
+			obs = map[int]string{1: "won", 0: "lost"}[pr.res]
+		}
+		tw.Raw(map[string]any{"op": "Claim", "n": n, "t": 1, "r": obs, "key": key, "fresh": true})
+		_ = p
+		return obs
+	}
+	tell := func(n string) {
+		before := w.sinkTotal()
+		step(n + "-1")
+		deadline := time.Now().Add(3 * time.Second)
+		for w.sinkTotal() == before && time.Now().Before(deadline) {
+			time.Sleep(200 * time.Microsecond)
+		}
+		tw.Raw(map[string]any{"op": "Tell", "n": n, "t": 1, "dlv": w.sinkTotal() - before})
+	}
+	// n1 is on time: claims and delivers
+	fire("n1")
+	check("n1")
+	claim("n1")
+	claimed := time.Now()
+	tell("n1")
+	// n2 lags almost a full TTL: still fresh
+	time.Sleep(time.Until(run.Add(ttl - 400*time.Millisecond)))
+	fire("n2")
+	r2 := check("n2")
+	outcome := "n2 saw the tick stale"
+	if r2 == "fresh" {
+		// ... and stalls between the check and the claim until n1's claim has expired
+		time.Sleep(time.Until(claimed.Add(ttl + 300*time.Millisecond)))
+		tw.Raw(map[string]any{"op": "Expire", "n": "", "t": 1})
+		outcome = "n2 lost the claim"
+		if claim("n2") == "won" {
+			tell("n2")
+			outcome = "n2 won the tick again"
+		}
+	}
+	s.FreeRun()
+	s.Join(5 * time.Second)
+	s.Close()
+	tw.Raw(map[string]any{"op": "End", "id": 0, "sink": w.sinkTotal(), "loose": 0, "drift": ""})
+	n := tw.Count()
+	if err := tw.Close(); err != nil {
+		fatal(err)
+	}
+	w.stop()
+	fmt.Fprintf(os.Stdout, `{"events":%d,"deliveries":%d,"outcome":%q,"wall_s":%.1f}`+"\n", n, w.sinkTotal(), outcome, time.Since(run).Seconds())
 }
